@@ -379,6 +379,7 @@ def specObs (c : Config) (nDec : Nat) : Op → DRes
   | .mkProfile => .profile (listsOf (pureView c .settingsByIndex))
   | .transform d w => specSteps c nDec d w false
   | .recover d w => specSteps c nDec d w true
+  | .recoverWire _ _ => .unit   -- not a function of the configuration alone: see `wire_spec` / `decoders_independent`
   | .propsRaw => .unit
   | .propsPretty => .unit
   | .mutateAttempt _ => .exc .typeError
@@ -625,13 +626,13 @@ theorem Inv.addExternal {c : Config} {s : State} (hi : Inv c s) (cells : List Ad
   · exact hi.disj
 
 /-- outcome of `C2Http.__init__` on any reachable state -/
-def C2Outcome (c : Config) (s : State) (r : State × Except Res Decoder) : Prop :=
+def C2Outcome (c : Config) (s : State) (ks0 : KeyState) (r : State × Except Res Decoder) : Prop :=
   match r.2 with
-  | .ok d => ∃ dd, specC2 c = .ok dd ∧ derefD r.1.heap d = some dd ∧ r.1.decoders = s.decoders ++ [d]
+  | .ok d => ∃ dd, specC2 c = .ok dd ∧ derefD r.1.heap d = some dd ∧ r.1.decoders = s.decoders ++ [d] ∧ d.ks = ks0
   | .error e => ∃ x, specC2 c = .error x ∧ e = .exc x ∧ r.1.decoders = s.decoders
 
-theorem c2http_spec {c : Config} {s : State} (hi : Inv c s) (k : KeyVariant) (hk : k ≠ .noKey) :
-    Inv c (c2http true c s k).1 ∧ C2Outcome c s (c2http true c s k) := by
+theorem c2http_spec {c : Config} {s : State} (hi : Inv c s) (k : KeyVariant) (ks0 : KeyState) (hk : k ≠ .noKey) :
+    Inv c (c2http true c s k ks0).1 ∧ C2Outcome c s ks0 (c2http true c s k ks0) := by
   obtain ⟨hi1, hg1, -, -⟩ := viewAccess_spec hi .rawSettings
   obtain ⟨hi2, hg2, hm2, -⟩ := viewAccess_spec hi1 .settings
   have hdec2 : (viewAccess c (viewAccess c s .rawSettings).1 .settings).1.decoders = s.decoders :=
@@ -669,7 +670,7 @@ theorem c2http_spec {c : Config} {s : State} (hi : Inv c s) (k : KeyVariant) (hk
             rcases mkTFrom_spec "SETTING_C2_RECOVER" true (some buildOutput) hm4 with ⟨e, he1, he2⟩ | ⟨x3, y3, t3, xs3, e3, sp3, d3, b3, b3'⟩
             · simp only [he1, he2]; exact ⟨(hi2.extend _).extend _, by simp [hdec2]⟩
             · simp only [e3, sp3]
-              have hD : derefD (s2.heap ++ [x1, y1] ++ [x2, y2] ++ [x3, y3]) ⟨t1, t2, t3⟩ =
+              have hD : derefD (s2.heap ++ [x1, y1] ++ [x2, y2] ++ [x3, y3]) ⟨t1, t2, t3, ks0⟩ =
                   some (specTransform xs1 false none, specTransform xs2 false none,
                     specTransform xs3 true (some buildOutput)) := by
                 simp only [derefD]
@@ -677,14 +678,15 @@ theorem c2http_spec {c : Config} {s : State} (hi : Inv c s) (k : KeyVariant) (hk
               have hI5 := ((hi2.extend [x1, y1]).extend [x2, y2]).extend [x3, y3]
               have hlt := hi2.cfg_lt
               simp only [List.length_append, List.length_cons, List.length_nil] at b2 b2' b3 b3'
-              refine ⟨hI5.addDecoder ⟨t1, t2, t3⟩ _ (by unfold specC2; simp [hp, ht, hn, sp1, sp2, sp3]) hD ?_, ?_⟩
+              refine ⟨hI5.addDecoder ⟨t1, t2, t3, ks0⟩ _ (by unfold specC2; simp [hp, ht, hn, sp1, sp2, sp3]) hD ?_, ?_⟩
               · intro a ha hcfg
                 have h1 : a < s2.heap.length := hlt a hcfg
                 simp only [Decoder.refs, Transform.refs, List.mem_append, List.mem_cons, List.not_mem_nil,
                   or_false] at ha
                 rcases ha with ((rfl | rfl) | rfl | rfl) | rfl | rfl <;>
                   exact absurd h1 (Nat.not_lt.2 (by omega))
-              · exact ⟨_, rfl, hD, by simp [hdec2]⟩
+              · refine ⟨_, rfl, hD, ?_⟩
+                simp [hdec2]
 
 theorem copyLists_spec (m : Mapping) : ∀ (h : Heap) (dm : DMapping), derefMap h m = some dm →
     ∃ e cells, copyLists h m = some (h ++ e, cells) ∧ derefCells (h ++ e) cells = some (listsOf dm) ∧
@@ -774,66 +776,66 @@ theorem step_mutate {c : Config} {s : State} (hi : Inv c s) (t : MutTarget) :
 
 theorem step_mkC2Http {c : Config} {s : State} (hi : Inv c s) (k : KeyVariant) :
     Inv c (step true c s (.mkC2Http k)).1 ∧ obs true c s (.mkC2Http k) = specObs c s.decoders.length (.mkC2Http k) ∧
-    s.decoders.length ≤ (step true c s (.mkC2Http k)).1.decoders.length := by
+    ∃ extra, (step true c s (.mkC2Http k)).1.decoders = s.decoders ++ extra := by
   by_cases hk : k = .noKey
   · subst hk
-    exact ⟨hi, rfl, Nat.le_refl _⟩
-  · obtain ⟨h1, h2⟩ := c2http_spec hi k hk
+    exact ⟨hi, rfl, [], by simp [step, c2http]⟩
+  · obtain ⟨h1, h2⟩ := c2http_spec hi k (initKeyState k) hk
     unfold C2Outcome at h2
     simp only [obs, step, specObs, hk, if_false]
-    generalize c2http true c s k = r at h1 h2
+    generalize c2http true c s k (initKeyState k) = r at h1 h2
     obtain ⟨s', res⟩ := r
     cases res with
     | ok d =>
-      obtain ⟨dd, e1, e2, e3⟩ := h2
+      obtain ⟨dd, e1, e2, e3, -⟩ := h2
       simp only at e2 e3 h1
-      exact ⟨h1, by simp [deepRes, e1, e2], by simp [e3]⟩
+      exact ⟨h1, by simp [deepRes, e1, e2], [d], e3⟩
     | error e =>
       obtain ⟨x, e1, e2, e3⟩ := h2
       simp only at e2 e3 h1
       subst e2
-      exact ⟨h1, by simp [deepRes, e1], by simp [e3]⟩
+      exact ⟨h1, by simp [deepRes, e1], [], by simp [e3]⟩
 
 theorem step_client {c : Config} {s : State} (hi : Inv c s) (ok : Bool) :
     Inv c (step true c s (.clientDryRun ok)).1 ∧
     obs true c s (.clientDryRun ok) = specClient c ok ∧
-    s.decoders.length ≤ (step true c s (.clientDryRun ok)).1.decoders.length := by
+    ∃ extra, (step true c s (.clientDryRun ok)).1.decoders = s.decoders ++ extra := by
   simp only [obs, step]
   unfold clientRun specClient
   cases ok with
-  | false => exact ⟨hi, rfl, Nat.le_refl _⟩
+  | false => exact ⟨hi, rfl, [], by simp⟩
   | true =>
     simp only [Bool.not_true, Bool.false_eq_true, if_false]
     obtain ⟨hi1, hg1, -, -⟩ := viewAccess_spec hi .rawSettings
     cases hp : c.protoHttp with
-    | false => exact ⟨hi1, rfl, by
-        show s.decoders.length ≤ (viewAccess c s .rawSettings).1.decoders.length
-        rw [hg1.decoders]; exact Nat.le_refl _⟩
+    | false => exact ⟨hi1, rfl, [], by
+        show (viewAccess c s .rawSettings).1.decoders = s.decoders ++ []
+        rw [hg1.decoders]; simp⟩
     | true =>
       simp only [Bool.not_true, Bool.false_eq_true, if_false]
-      obtain ⟨h1, h2⟩ := c2http_spec hi1 .aesHmac (by decide)
+      obtain ⟨h1, h2⟩ := c2http_spec hi1 .aesHmac ⟨false, .foreign, false⟩ (by decide)
       unfold C2Outcome at h2
-      generalize c2http true c (viewAccess c s .rawSettings).1 .aesHmac = r at h1 h2
+      generalize c2http true c (viewAccess c s .rawSettings).1 .aesHmac ⟨false, .foreign, false⟩ = r at h1 h2
       obtain ⟨s2, res⟩ := r
       cases res with
       | error e =>
         obtain ⟨x, e1, e2, e3⟩ := h2
         simp only at e2 e3 h1
         subst e2
-        exact ⟨h1, by simp [deepRes, e1], by simp [e3, hg1.decoders]⟩
+        exact ⟨h1, by simp [deepRes, e1], [], by simp [e3, hg1.decoders]⟩
       | ok d =>
-        obtain ⟨dd, e1, e2, e3⟩ := h2
+        obtain ⟨dd, e1, e2, e3, -⟩ := h2
         simp only at e2 e3 h1
         simp only [e1]
         cases hd : c.hasDomains with
-        | false => exact ⟨h1, by simp [deepRes], by simp [e3, hg1.decoders]⟩
+        | false => exact ⟨h1, by simp [deepRes], [d], by simp [e3, hg1.decoders]⟩
         | true =>
           simp only [Bool.not_true, Bool.false_eq_true, if_false]
           obtain ⟨hi3, hg3, hm3, -⟩ := viewAccess_spec h1 .settings
           rw [hasName_deref "SETTING_SLEEPTIME" hm3, hasName_deref "SETTING_JITTER" hm3,
             hasName_deref "SETTING_USERAGENT" hm3, hasName_deref "SETTING_HOST_HEADER" hm3]
-          have hlen : s.decoders.length ≤ (viewAccess c s2 .settings).1.decoders.length := by
-            rw [hg3.decoders, e3, hg1.decoders]; simp
+          have hlen : ∃ extra, (viewAccess c s2 .settings).1.decoders = s.decoders ++ extra :=
+            ⟨[d], by rw [hg3.decoders, e3, hg1.decoders]⟩
           obtain ⟨e, he⟩ := hg3.heap
           cases hn : (hasName (pureView c .settings) "SETTING_SLEEPTIME" && hasName (pureView c .settings) "SETTING_JITTER"
               && hasName (pureView c .settings) "SETTING_USERAGENT" && hasName (pureView c .settings) "SETTING_HOST_HEADER") with
@@ -937,41 +939,203 @@ theorem step_snapshot {c : Config} {s : State} (hi : Inv c s) :
   rw [← he2, ← he3, ← he4] at n1
   simp [deepRes, derefMaps, n1, n2, n3, m4, View.all]
 
-/-- every operation keeps the invariant and returns what the pure specification says -/
+/-! ### per-decoder key state (`iter_recover_http`) -/
+
+theorem setKs_length (ds : List Decoder) (i : Nat) (f : KeyState → KeyState) : (setKs ds i f).length = ds.length := by
+  induction ds generalizing i with
+  | nil => rfl
+  | cons d r ih => cases i <;> simp [setKs, ih]
+
+theorem setKs_refs (ds : List Decoder) (i : Nat) (f : KeyState → KeyState) :
+    (setKs ds i f).flatMap Decoder.refs = ds.flatMap Decoder.refs := by
+  induction ds generalizing i with
+  | nil => rfl
+  | cons d r ih =>
+    cases i with
+    | zero => simp [setKs, Decoder.refs]
+    | succ i => simp [setKs, ih]
+
+theorem setKs_mem {ds : List Decoder} {i : Nat} {f : KeyState → KeyState} {d' : Decoder} (h : d' ∈ setKs ds i f) :
+    ∃ d ∈ ds, d'.submit = d.submit ∧ d'.get = d.get ∧ d'.response = d.response := by
+  induction ds generalizing i with
+  | nil => simp [setKs] at h
+  | cons d r ih =>
+    cases i with
+    | zero =>
+      simp only [setKs, List.mem_cons] at h
+      rcases h with rfl | h
+      · exact ⟨d, by simp, rfl, rfl, rfl⟩
+      · exact ⟨d', by simp [h], rfl, rfl, rfl⟩
+    | succ i =>
+      simp only [setKs, List.mem_cons] at h
+      rcases h with rfl | h
+      · exact ⟨d', by simp, rfl, rfl, rfl⟩
+      · obtain ⟨d0, h0, h1⟩ := ih h
+        exact ⟨d0, by simp [h0], h1⟩
+
+theorem setKs_get (ds : List Decoder) (i j : Nat) (f : KeyState → KeyState) :
+    ((setKs ds i f)[j]?).map Decoder.ks = (ds[j]?).map (fun d => if j = i then f d.ks else d.ks) := by
+  induction ds generalizing i j with
+  | nil => simp [setKs]
+  | cons d r ih =>
+    cases i with
+    | zero => cases j <;> simp [setKs]
+    | succ i =>
+      cases j with
+      | zero => simp [setKs]
+      | succ j => simp [setKs, ih]
+
+theorem derefD_congr {h : Heap} {d d' : Decoder} (h1 : d'.submit = d.submit) (h2 : d'.get = d.get)
+    (h3 : d'.response = d.response) : derefD h d' = derefD h d := by
+  simp [derefD, h1, h2, h3]
+
+theorem Inv.setKs {c : Config} {s : State} (hi : Inv c s) (i : Nat) (f : KeyState → KeyState) :
+    Inv c { s with decoders := setKs s.decoders i f } := by
+  constructor
+  · exact hi.views
+  · intro d' hd'
+    obtain ⟨d, hd, h1, h2, h3⟩ := setKs_mem hd'
+    obtain ⟨dd, e1, e2⟩ := hi.decs d hd
+    exact ⟨dd, e1, by rw [derefD_congr h1 h2 h3]; exact e2⟩
+  · exact hi.exts
+  · intro a ha
+    have : a ∈ extRefs s := by
+      simp only [extRefs, setKs_refs] at ha ⊢; exact ha
+    exact hi.sep a this
+  · exact hi.disj
+
+/-- the result of `iter_recover_http` is a function of the decoder's own key state -/
+theorem wire_spec (c : Config) (s : State) (d : Nat) (w : Wire) :
+    obs true c s (.recoverWire d w) =
+      match s.decoders[d]? with
+      | none => .noDecoder
+      | some dec => match wireRes dec.ks w with
+        | .inl ps => .packets ps
+        | .inr e => .exc e := by
+  simp only [obs, step]
+  cases s.decoders[d]? with
+  | none => rfl
+  | some dec =>
+    dsimp only
+    generalize wireRes dec.ks w = r
+    cases r <;> rfl
+
+/-- what one operation does to the key state of decoder `j` -/
+def ownStep (j : Nat) (op : Op) (ks : KeyState) : KeyState :=
+  match op with
+  | .recoverWire d w => if j = d then wireStep ks w else ks
+  | _ => ks
+
+/-- every operation keeps the invariant; operations other than `iter_recover_http` return what the pure
+specification says and only append decoders -/
 theorem step_spec {c : Config} {s : State} (hi : Inv c s) (op : Op) :
-    Inv c (step true c s op).1 ∧ obs true c s op = specObs c s.decoders.length op ∧
-    s.decoders.length ≤ (step true c s op).1.decoders.length := by
+    Inv c (step true c s op).1 ∧
+    (op.isWire = false → obs true c s op = specObs c s.decoders.length op) ∧
+    (op.isWire = false → ∃ extra, (step true c s op).1.decoders = s.decoders ++ extra) := by
   cases op with
   | viewAccess v =>
     obtain ⟨h1, h2, h3⟩ := step_viewAccess hi v
-    exact ⟨h1, h2, by rw [h3]; exact Nat.le_refl _⟩
+    exact ⟨h1, fun _ => h2, fun _ => ⟨[], by rw [h3]; simp⟩⟩
   | settingsMap k p q =>
     obtain ⟨h1, h2, h3⟩ := step_settingsMap hi k p q
-    exact ⟨h1, h2, by rw [h3]; exact Nat.le_refl _⟩
-  | mkC2Http k => exact step_mkC2Http hi k
-  | clientDryRun ok => exact step_client hi ok
+    exact ⟨h1, fun _ => h2, fun _ => ⟨[], by rw [h3]; simp⟩⟩
+  | mkC2Http k =>
+    obtain ⟨h1, h2, h3⟩ := step_mkC2Http hi k
+    exact ⟨h1, fun _ => h2, fun _ => h3⟩
+  | clientDryRun ok =>
+    obtain ⟨h1, h2, h3⟩ := step_client hi ok
+    exact ⟨h1, fun _ => h2, fun _ => h3⟩
   | mkProfile =>
     obtain ⟨h1, h2, h3⟩ := step_profile hi
-    exact ⟨h1, h2, by rw [h3]; exact Nat.le_refl _⟩
-  | transform d w => exact ⟨hi, readSteps_spec hi d w false, Nat.le_refl _⟩
-  | recover d w => exact ⟨hi, readSteps_spec hi d w true, Nat.le_refl _⟩
+    exact ⟨h1, fun _ => h2, fun _ => ⟨[], by rw [h3]; simp⟩⟩
+  | transform d w => exact ⟨hi, fun _ => readSteps_spec hi d w false, fun _ => ⟨[], by simp [step]⟩⟩
+  | recover d w => exact ⟨hi, fun _ => readSteps_spec hi d w true, fun _ => ⟨[], by simp [step]⟩⟩
+  | recoverWire d w =>
+    refine ⟨?_, fun h => by simp [Op.isWire] at h, fun h => by simp [Op.isWire] at h⟩
+    simp only [step]
+    cases s.decoders[d]? with
+    | none => exact hi
+    | some dec => exact hi.setKs d _
   | propsRaw =>
     obtain ⟨h1, h2, -, -⟩ := viewAccess_spec hi .rawSettings
-    exact ⟨h1, rfl, by
-      show s.decoders.length ≤ (viewAccess c s .rawSettings).1.decoders.length
-      rw [h2.decoders]; exact Nat.le_refl _⟩
+    exact ⟨h1, fun _ => rfl, fun _ => ⟨[], by
+      show (viewAccess c s .rawSettings).1.decoders = s.decoders ++ []
+      rw [h2.decoders]; simp⟩⟩
   | propsPretty =>
     obtain ⟨h1, h2, -, -⟩ := viewAccess_spec hi .settings
-    exact ⟨h1, rfl, by
-      show s.decoders.length ≤ (viewAccess c s .settings).1.decoders.length
-      rw [h2.decoders]; exact Nat.le_refl _⟩
+    exact ⟨h1, fun _ => rfl, fun _ => ⟨[], by
+      show (viewAccess c s .settings).1.decoders = s.decoders ++ []
+      rw [h2.decoders]; simp⟩⟩
   | mutateAttempt t =>
     obtain ⟨h1, h2, h3⟩ := step_mutate hi t
-    refine ⟨h1, ?_, by rw [h3]; exact Nat.le_refl _⟩
+    refine ⟨h1, fun _ => ?_, fun _ => ⟨[], by rw [h3]; simp⟩⟩
     simp only [obs, h2, deepRes, specObs]
   | snapshotAll =>
     obtain ⟨h1, h2, h3⟩ := step_snapshot hi
-    exact ⟨h1, h2, by rw [h3]; exact Nat.le_refl _⟩
+    exact ⟨h1, fun _ => h2, fun _ => ⟨[], by rw [h3]; simp⟩⟩
+
+/-- one operation changes the key state of an existing decoder `j` only if it is `iter_recover_http` on `j` -/
+theorem step_ks {c : Config} {s : State} (hi : Inv c s) (op : Op) (j : Nat) (hj : j < s.decoders.length) :
+    ((step true c s op).1.decoders[j]?).map Decoder.ks = (s.decoders[j]?).map (fun d => ownStep j op d.ks) ∧
+    j < (step true c s op).1.decoders.length := by
+  by_cases hw : op.isWire = true
+  · cases op <;> simp [Op.isWire] at hw
+    rename_i d w
+    simp only [step]
+    cases hd : s.decoders[d]? with
+    | none =>
+      have hdj : j ≠ d := by
+        intro h; subst h
+        rw [List.getElem?_eq_getElem hj] at hd; cases hd
+      refine ⟨?_, hj⟩
+      simp [ownStep, hdj]
+    | some dec =>
+      refine ⟨?_, by simpa [setKs_length] using hj⟩
+      show ((setKs s.decoders d fun ks => wireStep ks w)[j]?).map Decoder.ks = _
+      rw [setKs_get]
+      simp only [ownStep]
+  · have hw' : op.isWire = false := by simpa using hw
+    obtain ⟨extra, he⟩ := (step_spec hi op).2.2 hw'
+    rw [he]
+    refine ⟨?_, by simp; omega⟩
+    rw [List.getElem?_append_left hj]
+    have : ∀ ks, ownStep j op ks = ks := by
+      intro ks; cases op <;> simp [Op.isWire] at hw' <;> rfl
+    simp [this]
+
+/-- the `iter_recover_http` calls made on decoder `j` in a history -/
+def ownWires (j : Nat) : List Op → List Wire
+  | [] => []
+  | .recoverWire d w :: rest => if j = d then w :: ownWires j rest else ownWires j rest
+  | _ :: rest => ownWires j rest
+
+theorem ownStep_eq (j : Nat) (op : Op) (ks : KeyState) :
+    ownStep j op ks = (ownWires j [op]).foldl wireStep ks := by
+  cases op <;> simp [ownStep, ownWires]
+  split <;> simp
+
+theorem ownWires_cons (j : Nat) (op : Op) (rest : List Op) :
+    ownWires j (op :: rest) = ownWires j [op] ++ ownWires j rest := by
+  cases op <;> simp [ownWires]
+  split <;> simp
+
+theorem run_ks {c : Config} (ops : List Op) : ∀ {s : State}, Inv c s → ∀ j, j < s.decoders.length →
+    ((runState true c s ops).decoders[j]?).map Decoder.ks =
+      (s.decoders[j]?).map (fun d => (ownWires j ops).foldl wireStep d.ks) := by
+  induction ops with
+  | nil => intro s _ j _; simp [runState, ownWires]
+  | cons op rest ih =>
+    intro s hi j hj
+    obtain ⟨h1, h2⟩ := step_ks hi op j hj
+    have := ih (step_spec hi op).1 j h2
+    simp only [runState, List.foldl_cons] at this ⊢
+    have e : ∀ (x : Option Decoder) (g : KeyState → KeyState),
+        x.map (fun d => g d.ks) = (x.map Decoder.ks).map g := by
+      intro x g; cases x <;> rfl
+    rw [this, e _ (fun ks => (ownWires j rest).foldl wireStep ks), h1, ownWires_cons]
+    cases s.decoders[j]? with
+    | none => rfl
+    | some d => simp [ownStep_eq, List.foldl_append]
 
 theorem run_inv {c : Config} (ops : List Op) : ∀ {s : State}, Inv c s → Inv c (runState true c s ops) := by
   induction ops with
@@ -990,5 +1154,8 @@ theorem snapshot_of_inv {c : Config} {s : State} (hi : Inv c s) :
 
 theorem specObs_decoderFree (c : Config) (n : Nat) (op : Op) (h : op.decoderFree = true) :
     specObs c n op = specObs c 0 op := by
+  cases op <;> simp [Op.decoderFree] at h <;> rfl
+
+theorem isWire_of_decoderFree (op : Op) (h : op.decoderFree = true) : op.isWire = false := by
   cases op <;> simp [Op.decoderFree] at h <;> rfl
 end C14
